@@ -545,6 +545,12 @@ func init() {
 					return *r
 				}
 			}
+			if i%7 == 4 {
+				// a file name is a label given by the caller; whatever it holds, it must not get out of the comment that
+				// quotes it at the top of the generated file
+				files[len(files)-1].Name = []string{"views/a b.soy", "x\nalert(1)//.soy", "line\u2028sep.soy", "cr\rname.soy", "*/ star.soy", "</script>.soy", "back\\slash.soy", "nl\n"}[ctx.Rng.Intn(8)]
+				ctx.Cell("awkward-file-names")
+			}
 			if i%3 == 0 && len(files) >= 2 {
 				// file names that are prefixes / suffixes of one another, the longer one first: names identify files exactly
 				files[0].Name = "admin_" + files[1].Name
